@@ -141,6 +141,30 @@ def c19_refuse(ftype, value=None):
     return {"violates": bool(bad), "detail": bad}
 
 
+def c19_carry_on(ftype, pos, value):
+    """an accepted record, a refused one (refused at field number pos), an accepted one: exactly the accepted records are in the container"""
+    from flow.record import RecordDescriptor, RecordReader, RecordWriter
+
+    D = RecordDescriptor("c19/t", [("string", "s"), (ftype, "x")] if pos == 1 else [(ftype, "x"), ("string", "s")])
+    with tempfile.TemporaryDirectory() as td:
+        p = os.path.join(td, "a.avro")
+        w = RecordWriter("avro://" + p)
+        w.write(D(s="first", x=1))
+        try:
+            w.write(D(s="refused", x=value))
+            outcome = "written"
+        except Exception:
+            outcome = "raised"
+        w.write(D(s="third", x=3))
+        w.close()
+        try:
+            back = [(r.s, int(r.x)) for r in RecordReader("avro://" + p)]
+        except Exception as e:
+            back = f"reading raised {type(e).__name__}: {e}"
+    ok = outcome == "raised" and back == [("first", 1), ("third", 3)]
+    return {"violates": not ok, "detail": None if ok else f"refused record between two accepted ones: {outcome}, read back {back}"}
+
+
 def c19_mixed(same_name=False):
     from flow.record import RecordDescriptor
 
@@ -201,4 +225,4 @@ def c19_sweep(seed=0, n=80):
     return {"violates": False, "cases": cases}
 
 
-CALLS = {"c19_value": c19_value, "c19_schema": c19_schema, "c19_refuse": c19_refuse, "c19_mixed": c19_mixed, "c19_sweep": c19_sweep}
+CALLS = {"c19_value": c19_value, "c19_schema": c19_schema, "c19_refuse": c19_refuse, "c19_mixed": c19_mixed, "c19_carry_on": c19_carry_on, "c19_sweep": c19_sweep}
